@@ -35,6 +35,7 @@ type DecEpisode struct {
 	MaxOps     int           `json:"max_ops"`
 	Handoff    int           `json:"handoff"`     // op index at which a hand-off is attempted (-1: none)
 	PeekFollow []int         `json:"peek_follow"` // per faulted PeekKind: 0 retry PeekKind, 1 collect cached error via ReadToken, 2 via ReadValue
+	PtrEvery   int           `json:"ptr_every"`   // StackPointer is observed after every k-th call only (0: every call; <0: never before the end)
 }
 
 type DecPlan struct {
@@ -153,6 +154,14 @@ func (sc *Dec) planEpisode(t *core.Tape, env *Env, idx int) DecEpisode {
 		ep.Ops = string(ops)
 		ep.Loop = []byte{0, 'T', 'V', 'S'}[os.Draw(4)]
 	}
+	switch os.Weighted(5, 2, 2, 1) {
+	case 1:
+		ep.PtrEvery = 2 + os.Draw(6)
+	case 2:
+		ep.PtrEvery = 10 + os.Draw(60)
+	case 3:
+		ep.PtrEvery = -1
+	}
 	ep.MaxOps = 3000
 	if env.Thorough {
 		ep.MaxOps = 30000
@@ -252,6 +261,8 @@ type decStep struct {
 	Val  []byte
 	Err  errClass
 	Obs  obs
+
+	PtrObserved bool
 }
 
 func (s decStep) String() string {
@@ -420,6 +431,20 @@ func (sc *Dec) runEpisode(ep *DecEpisode, dp **jsontext.Decoder, env *Env, epIdx
 		return o
 	}
 
+	// Sparse pointer observation: StackPointer has a side effect inside the
+	// library (it copies pending names out of the read buffer), so asking
+	// after every call would hide bugs in that bookkeeping.
+	wantPtr := func(i int) bool {
+		switch {
+		case ep.PtrEvery == 0:
+			return true
+		case ep.PtrEvery < 0:
+			return i == len(twin)-1
+		}
+		return i%ep.PtrEvery == ep.PtrEvery-1 || i == len(twin)-1
+	}
+	checkTwin := env.Prop != "C16" && env.Prop != "C01"
+	var lastGot decStep
 	peekFaults := 0
 	nFaultAttempts := 0
 	firstErrSeen := false
@@ -442,7 +467,7 @@ func (sc *Dec) runEpisode(ep *DecEpisode, dp **jsontext.Decoder, env *Env, epIdx
 
 		var got decStep
 		for attempt := 0; ; attempt++ {
-			before := rebase(observe(d, d.InputOffset(), true))
+			before := rebase(observe(d, d.InputOffset(), false))
 			f0 := tap.FaultsDelivered
 			sim.SuppressFault = op == 'S'
 			got = decCall(d, op)
@@ -472,7 +497,7 @@ func (sc *Dec) runEpisode(ep *DecEpisode, dp **jsontext.Decoder, env *Env, epIdx
 			}
 			nFaultAttempts++
 			st.Nontrivial = true
-			after := rebase(observe(d, d.InputOffset(), true))
+			after := rebase(observe(d, d.InputOffset(), false))
 			if !before.equal(after) {
 				if report("C05", "C05/fault-changed-state", string(op), "op %d %c failed with the injected error but observers changed: before %v after %v", i, op, before, after) {
 					return
@@ -504,7 +529,7 @@ func (sc *Dec) runEpisode(ep *DecEpisode, dp **jsontext.Decoder, env *Env, epIdx
 							return
 						}
 					}
-					after2 := rebase(observe(d, d.InputOffset(), true))
+					after2 := rebase(observe(d, d.InputOffset(), false))
 					if !before.equal(after2) {
 						if report("C05", "C05/fault-changed-state", "P+"+string(cop), "op %d: collecting the cached peek error changed observers: before %v after %v", i, before, after2) {
 							return
@@ -516,53 +541,65 @@ func (sc *Dec) runEpisode(ep *DecEpisode, dp **jsontext.Decoder, env *Env, epIdx
 				}
 			}
 		}
-		got.Obs = rebase(observe(d, d.InputOffset(), true))
+		withPtr := wantPtr(i)
+		got.PtrObserved = withPtr
+		got.Obs = rebase(observe(d, d.InputOffset(), withPtr))
 		got.Err = got.Err.rebase(base)
+		if !withPtr {
+			want.Obs.Ptr = ""
+		}
 
 		// --- C05: equality with the whole-slice twin
-		if got.Kind != want.Kind || got.Str != want.Str || !bytes.Equal(got.Val, want.Val) {
-			if report("C05", "C05/trace-divergence/result", string(op), "op %d: chunked %v ; whole-slice %v", i, got, want) {
-				return
-			}
-		}
-		if got.Err != want.Err {
-			cls := "C05/trace-divergence/error"
-			if got.Err.Kind == want.Err.Kind && got.Err.Off == want.Err.Off && got.Err.Sent == want.Err.Sent {
-				cls = "C05/trace-divergence/error-pointer"
-			}
-			site := string(op)
-			if firstErrSeen {
-				site += "/after-error"
-			}
-			if report("C05", cls, site, "op %d: chunked %v ; whole-slice %v", i, got, want) {
-				return
-			}
-		}
-		if !got.Obs.equal(want.Obs) {
-			cls := "C05/trace-divergence/observers"
-			if got.Obs.Ptr != want.Obs.Ptr {
-				cls = "C05/trace-divergence/pointer"
-			}
-			site := string(op)
-			if firstErrSeen {
-				site += "/after-error"
-			}
-			if report("C05", cls, site, "op %d: chunked %v ; whole-slice %v", i, got, want) {
-				return
-			}
-		}
-		if op == 'V' && got.Err.Kind == "" {
-			end := got.Obs.Off
-			start := end - int64(len(got.Val))
-			if start < 0 || end > int64(len(in)) || !bytes.Equal(got.Val, in[start:end]) {
-				if report("C05", "C05/value-not-input-span", "V", "op %d: value %s is not input[%d:%d]", i, clip(got.Val, 40), start, end) {
-					return
+		twinCheck := func() (stop bool) {
+			if got.Kind != want.Kind || got.Str != want.Str || !bytes.Equal(got.Val, want.Val) {
+				if report("C05", "C05/trace-divergence/result", string(op), "op %d: chunked %v ; whole-slice %v", i, got, want) {
+					return true
 				}
 			}
+			if got.Err != want.Err {
+				cls := "C05/trace-divergence/error"
+				if got.Err.Kind == want.Err.Kind && got.Err.Off == want.Err.Off && got.Err.Sent == want.Err.Sent {
+					cls = "C05/trace-divergence/error-pointer"
+				}
+				site := string(op)
+				if firstErrSeen {
+					site += "/after-error"
+				}
+				if report("C05", cls, site, "op %d: chunked %v ; whole-slice %v", i, got, want) {
+					return true
+				}
+			}
+			if !got.Obs.equal(want.Obs) {
+				cls := "C05/trace-divergence/observers"
+				if got.Obs.Ptr != want.Obs.Ptr {
+					cls = "C05/trace-divergence/pointer"
+				}
+				site := string(op)
+				if firstErrSeen {
+					site += "/after-error"
+				}
+				if report("C05", cls, site, "op %d: chunked %v ; whole-slice %v", i, got, want) {
+					return true
+				}
+			}
+			if op == 'V' && got.Err.Kind == "" {
+				end := got.Obs.Off
+				start := end - int64(len(got.Val))
+				if start < 0 || end > int64(len(in)) || !bytes.Equal(got.Val, in[start:end]) {
+					if report("C05", "C05/value-not-input-span", "V", "op %d: value %s is not input[%d:%d]", i, clip(got.Val, 40), start, end) {
+						return true
+					}
+				}
+			}
+			if !conservation(string(op)) {
+				return true
+			}
+			return false
 		}
-		if !conservation(string(op)) {
+		if checkTwin && twinCheck() {
 			return
 		}
+		lastGot = got
 		if got.Err.Kind != "" {
 			firstErrSeen = true
 		}
@@ -584,7 +621,7 @@ func (sc *Dec) runEpisode(ep *DecEpisode, dp **jsontext.Decoder, env *Env, epIdx
 	// C01 verdict for pure loops: the loop must end, and end in io.EOF iff the
 	// stream is a concatenation of valid texts.
 	if ref != nil && !ref.Ambiguous && len(ep.Ops) == 0 && ep.Loop != 0 && len(twin) < ep.MaxOps {
-		last := twin[len(twin)-1]
+		last := lastGot
 		gotEOF := last.Err.Kind == "EOF"
 		if gotEOF != (ref.Status == refjson.Complete) {
 			if report("C01", "C01/verdict", string(ep.Loop)+"-loop", "loop of %c ended with %v but reference status=%d (0 complete,1 truncated,2 invalid) E=%d", ep.Loop, last.Err, ref.Status, ref.E) {
@@ -688,6 +725,7 @@ func (sc *Dec) refCheck(ep *DecEpisode, ref *refjson.Result, m *refjson.Model, t
 		expDontCare
 	)
 	exp := expOK
+	tokenPath := got.Op == 'T'
 	var endTok int // index one past the last token consumed
 	switch got.Op {
 	case 'P':
@@ -730,6 +768,16 @@ func (sc *Dec) refCheck(ep *DecEpisode, ref *refjson.Result, m *refjson.Model, t
 				}
 				if j >= len(ref.Toks) {
 					exp = expInputErr
+					if got.Op == 'S' {
+						// SkipValue of a composite is a loop of ReadToken: when the
+						// input fails inside it, the tokens before the failure have
+						// been consumed (the observers must say so).
+						for ; ti < len(ref.Toks); ti++ {
+							m.Apply(ref.Toks[ti].Kind, tokName(ref.Toks[ti]))
+						}
+						*tip = ti
+						tokenPath = true
+					}
 				} else {
 					endTok = j + 1
 				}
@@ -769,12 +817,12 @@ func (sc *Dec) refCheck(ep *DecEpisode, ref *refjson.Result, m *refjson.Model, t
 				return mk("C16", "C16/error-type", string(got.Op), "op %d: invalid input reported as %v", i, got.Err)
 			}
 			path := "token-path"
-			if got.Op != 'T' {
+			if !tokenPath {
 				path = "value-path"
 			}
 			if got.Err.Off < int64(ref.S) || got.Err.Off > int64(ref.E) {
 				site := path
-				if got.Err.Off > int64(ref.E) && got.Op == 'T' && m.NeedName() {
+				if got.Err.Off > int64(ref.E) && tokenPath && m.NeedName() {
 					site = "ReadToken/name-position/malformed-lexeme"
 				}
 				return mk("C16", "C16/error-offset", site, "op %d %c: ByteOffset=%d outside [S=%d,E=%d] (token at %d) input=%s", i, got.Op, got.Err.Off, ref.S, ref.E, ref.T, clip(in, 120))
@@ -833,7 +881,7 @@ func (sc *Dec) obsCheck(m *refjson.Model, ref *refjson.Result, ti int, i int, go
 			return mk("C16", "C16/observer/index", string(got.Op), "op %d: StackIndex(%d)=(%q,%d), reference (%q,%d)", i, l, got.Obs.Idx[k].K, got.Obs.Idx[k].N, kk, n)
 		}
 	}
-	if m.Depth() <= 64 {
+	if m.Depth() <= 64 && got.PtrObserved {
 		if p := m.Pointer(); got.Obs.Ptr != p {
 			return mk("C16", "C16/observer/pointer", string(got.Op), "op %d: StackPointer=%q, reference %q", i, got.Obs.Ptr, p)
 		}
